@@ -45,6 +45,32 @@ def decomposition_structure(ctx, rep, rule: str) -> None:
     rep.ob(rule, "offload-only-when-requested", ok, fi.loc(off[0]) if off else fi.loc(), "the matrix is moved to the offload device only for a non-empty device string; the caller's device is remembered first")
 
 
+def result_in_working_precision(ctx, rep, rule: str) -> None:
+    """Every dtype conversion inside the eigenvector routines converts TO the dtype of the matrix being decomposed (or to the
+    double-precision retry dtype): the estimate is lifted to A's precision on entry and the orthonormal basis is handed back in
+    that precision — narrowing it to the estimate's (storage) dtype inside the routine destroys orthonormality to storage
+    precision, the caller copies into its own storage anyway."""
+    repo = ctx.repo
+    m = repo.modules["matrix_functions"]
+    n = 0
+    for name in ("matrix_eigenvectors", "_compute_orthogonal_iterations", "_compute_eigenvectors", "_matrix_eigenvectors_qr", "_matrix_eigenvectors_eigh"):
+        fi = m.functions.get(name)
+        if fi is None:
+            continue
+        mats = {a for a in fi.params if a == "A"} or set(fi.params[:1])
+        for c in A.calls(fi.node, nested=True):
+            if not (isinstance(c.func, ast.Attribute) and c.func.attr in ("to", "type", "type_as", "half", "float", "double", "bfloat16")):
+                continue
+            if c.func.attr == "to" and A.keyword(c, "dtype") is None and not any(_norm(a).endswith(".dtype") or "torch.float" in _norm(a) for a in c.args):
+                continue  # a device move
+            n += 1
+            d = A.keyword(c, "dtype") if c.func.attr == "to" and A.keyword(c, "dtype") is not None else (c.args[0] if c.args else None)
+            txt = _norm(d) if d is not None else c.func.attr
+            ok = any(txt == f"{a}.dtype" for a in mats) or txt in ("torch.float64", "torch.double", "double")
+            rep.ob(rule, f"conversion-targets-the-working-precision:{name}", ok, fi.loc(c), f"`{_norm(c)[:90]}` converts to `{txt}`; inside the eigenvector routines the only conversions are to the matrix's dtype ({', '.join(sorted(mats))}.dtype) or the double-precision retry", sample=True)
+    rep.floor(rule, "dtype conversions inside the eigenvector routines", n, 1)
+
+
 def run(ctx, rep) -> None:
     rep.rule("C12.1", "eigendecomposition method: eigh of the given matrix, (eigenvalues, eigenvectors) returned on the input device, double-precision retry only under the flag")
     rep.rule("C12.2", "fast paths: 1-element input -> one, diagonal-flagged input -> identity; the diagonal flag is exact; shape rejection first")
@@ -55,6 +81,11 @@ def run(ctx, rep) -> None:
     rep.attempt("exact_diagonal_flag", exact_diagonal_flag, ctx, rep, "C12.2")
     rep.attempt("eigenvector_dispatch", eigenvector_dispatch, ctx, rep, "C12.3")
     rep.attempt("qr_iteration_arithmetic", qr_iteration_arithmetic, ctx, rep, "C12.4")
+    from .common import tensor_arguments_are_inputs
+
+    rep.rule("C12.5", "the eigenvector routines are functions of their tensor arguments (matrix and estimate are never written in place); the basis is returned in the working precision of the matrix")
+    rep.attempt("tensor_arguments_are_inputs", tensor_arguments_are_inputs, ctx, rep, "C12.5")
+    rep.attempt("result_in_working_precision", result_in_working_precision, ctx, rep, "C12.5")
     from .c03 import _Proxy
 
     rep.attempt("shape_guards", shape_guards, ctx, _Proxy(rep, "C11.1", "C12.2"), "C12.2")
